@@ -372,6 +372,11 @@ func (c *Check) serverContracts(rule string) {
 
 // timerChanName renders "holdTimer.C" for the channel of a timer field.
 func selChanName(v ssa.Value) string {
+	if pr, isP := v.(*ssa.Parameter); isP && curProg != nil {
+		// a helper's parameter stands for the argument at the site the
+		// running enumeration entered it from
+		v = curProg.origin(pr)
+	}
 	if ld, ok := v.(*ssa.UnOp); ok {
 		if fa, ok := ld.X.(*ssa.FieldAddr); ok && structFieldName(fa) == "C" {
 			if ld2, ok := fa.X.(*ssa.UnOp); ok {
@@ -389,19 +394,17 @@ func selChanName(v ssa.Value) string {
 func findSelectCase(fn *ssa.Function, ch string, send bool) (*ssa.Select, int64) {
 	var sel *ssa.Select
 	idx := int64(-1)
-	for _, g := range deepFuncs(fn) {
-		ownInstrs(g, func(in ssa.Instruction) {
-			s, ok := in.(*ssa.Select)
-			if !ok || sel != nil {
-				return
+	allInstrs(fn, func(in ssa.Instruction) {
+		s, ok := in.(*ssa.Select)
+		if !ok || sel != nil {
+			return
+		}
+		for i, ss := range s.States {
+			if (ss.Send != nil) == send && selChanName(ss.Chan) == ch {
+				sel, idx = s, int64(i)
 			}
-			for i, ss := range s.States {
-				if (ss.Send != nil) == send && selChanName(ss.Chan) == ch {
-					sel, idx = s, int64(i)
-				}
-			}
-		})
-	}
+		}
+	})
 	return sel, idx
 }
 
@@ -514,41 +517,7 @@ func (c *Check) fsmContracts(rule string) {
 	// run: start state, refusal on close, error hand-off
 	if fn := p.Fn("fsm.run"); fn != nil {
 		for _, withConn := range []bool{true, false} {
-			a := NewAnalysis(p, fn)
-			a.AtomHook = nnField("conn", withConn)
-			// the value of t.to when the request loop is entered
-			var first []int64
-			known := true
-			a.AfterFlow = func(from, to *ssa.BasicBlock, st *State) {
-				if to.Parent() != fn || to.Dominates(from) {
-					return
-				}
-				isHead := false
-				for _, pr := range to.Preds {
-					if to.Dominates(pr) {
-						isHead = true
-					}
-				}
-				if !isHead {
-					return
-				}
-				seen := false
-				for k, v := range st.mem {
-					me := st.memE[k]
-					if me != nil && me.Op == "fa" && me.S == "to" && me.Args[0].Op == "alloc" {
-						seen = true
-						if cv, isC := st.rangeOf(v).IsConst(); isC {
-							first = append(first, cv)
-						} else {
-							known = false
-						}
-					}
-				}
-				if !seen {
-					known = false
-				}
-			}
-			a.Run()
+			first, known := p.firstRequestTargets(fn, nnField("conn", withConn))
 			want := p.MustConst("activeState")
 			if !withConn {
 				want = idle
@@ -1326,4 +1295,48 @@ func (c *Check) optionsApplied(rule string) {
 		c.require(ok, rule, name, "runs its function", p.Pos(fn.Pos()), "apply calls the option's function on the options it is given, on every path")
 	}
 	c.floor(rule, n, 1, "PeerOption implementations")
+}
+
+// firstRequestTargets: the values of the transition variable's target when
+// the request loop of fsm.run is first entered, under the given assumption
+// (read from the abstract memory on the loop's entry edge, whatever builds the
+// transition: a constructor call, a composite literal, field assignments).
+func (p *Prog) firstRequestTargets(fn *ssa.Function, hook func(e *Expr) (ISet, bool)) (first []int64, known bool) {
+	a := NewAnalysis(p, fn)
+	a.AtomHook = hook
+	known = true
+	a.AfterFlow = func(from, to *ssa.BasicBlock, st *State) {
+		if to.Parent() != fn || to.Dominates(from) {
+			return
+		}
+		isHead := false
+		for _, pr := range to.Preds {
+			if to.Dominates(pr) {
+				isHead = true
+			}
+		}
+		if !isHead {
+			return
+		}
+		seen := false
+		for k, v := range st.mem {
+			me := st.memE[k]
+			if me != nil && me.Op == "fa" && me.S == "to" && me.Args[0].Op == "alloc" {
+				seen = true
+				if cv, isC := st.rangeOf(v).IsConst(); isC {
+					first = append(first, cv)
+				} else {
+					known = false
+				}
+			}
+		}
+		if !seen {
+			known = false
+		}
+	}
+	a.Run()
+	if len(a.Undecided) > 0 {
+		known = false
+	}
+	return first, known
 }
